@@ -472,7 +472,7 @@ Definition reassemble (c : ctx) (f : frag) : ctx * option body :=
     else (c2 <| inc := [] |> <| inc_len := 0 |>, Some (assemble (inc c2))).
 
 Definition accept_msg (c : ctx) (t : HandshakeType) (m : hmsg) : hres :=
-  let c1 := c <| rseq := rseq c + 1 |> in
+  let c1 := c <| rseq := (rseq c + 1) mod RECV_SEQ_MODULUS |> in   (* u16 wrapping_add *)
   let c2 := if in_transcript t then c1 <| tr := tr c1 ++ [m] |> else c1 in
   handle_msg c2 t m.
 
@@ -520,7 +520,9 @@ Definition handle_content (c : ctx) (k : content) : ctx * list out * rstatus :=
 
 Definition handle_record (c : ctx) (r : record) : ctx * list out * rstatus :=
   let discard :=
-    (r_epoch r =? 0) && (match skeys c with Some _ => true | None => false end) &&
+    (r_epoch r =? 0) &&
+    (match r_content r with KAppData _ => true | _ => false end ||
+     match skeys c with Some _ => true | None => false end) &&
     (negb (is_handshaking c) ||
      match r_content r with KAppData _ | KAlert _ => true | _ => false end) in
   if discard then (c, [], RNext)
